@@ -100,7 +100,7 @@ MUTATIONS = [
     ("c12-ignored-not-serialized", "core/objects.py", "        jsonfields = state_dict[\"fields\"] = {}\n        for argument, value in self.xpmvalues():\n            with context.push", "        jsonfields = state_dict[\"fields\"] = {}\n        for argument, value in self.xpmvalues():\n            if argument.ignored and not argument.generator:\n                continue\n            with context.push", ["C12"]),
     ("c12-enum-by-value", "core/objects.py", "                \"value\": value.name,\n            }", "                \"value\": list(type(value))[0].name,\n            }", ["C12"]),
     ("c12-task-link-not-restored", "core/objects.py", "                if task_id := definition.get(\"task\", None):\n                    o.__xpm__.task = objects[task_id]", "                pass", ["C12"]),
-    ("c12-float-as-int", "core/objects.py", "        elif isinstance(value, (int, float, str)):\n            return value\n\n        elif isinstance(value, Enum):", "        elif isinstance(value, float) and value == int(value) if isinstance(value, float) and value == value and abs(value) < 1e15 else False:\n            return int(value)\n\n        elif isinstance(value, (int, float, str)):\n            return value\n\n        elif isinstance(value, Enum):", ["C12"]),
+    ("c12-float-as-int", "core/objects.py", "        elif isinstance(value, (int, float, str)):\n            return value\n", "        elif isinstance(value, float) and value == int(value) if isinstance(value, float) and value == value and abs(value) < 1e15 else False:\n            return int(value)\n\n        elif isinstance(value, (int, float, str)):\n            return value\n", ["C12"]),
     ("c12-tags-not-nested", "core/objects.py", "                super().__init__(recurse_task=True)\n                self.tags = {}", "                super().__init__(recurse_task=False)\n                self.tags = {}", ["C12"]),
     # C13
     ("c13-preprocess-always", "core/objects.py", "            if self.objects.is_constructed(id(config)):\n                return False, self.objects.retrieve(id(config))\n            return True, None", "            return True, None", ["C13"]),
